@@ -118,7 +118,7 @@ def run(tier, seed, replay=None):
         "a permutation that typify rejects (Err/panic) while another is accepted is reported (perm_ingest_differs)",
         "'merge reports never' is observed through the convert_never hook event of that run",
     ]
-    n = 70 if tier == "quick" else 2500
+    n = 220 if tier == "quick" else 3000
     comps = []
     for i in range(n):
         r = util.rng(seed, PROP, "comp", i)
